@@ -190,7 +190,10 @@ def run_loop(case, build_dir: Path, guard_s=60):
             ps = case["preset"]
             for a in pop:
                 a.steps = [int(ps["steps"])] * (int(ps["nfit"]) + 1)
-                a.fitness = [100.0 if int(a.index) == int(ps.get("best", -1)) else 0.0] * int(ps["nfit"])
+                v = 100.0 if int(a.index) == int(ps.get("best", -1)) else 0.0
+                if case.get("sum_scores") is False and hasattr(a, "agent_ids"):
+                    v = np.full(len(a.agent_ids), v)          # per-agent scores: one entry per agent id
+                a.fitness = [v] * int(ps["nfit"])
         obs["pop_in"] = len(pop)
         obs["pop_in_indices"] = [int(a.index) for a in pop]
         cls = type(pop[0])
